@@ -228,6 +228,16 @@ pub const CORPUS: &[(&str, &str)] = &[
         (global externref (global.get 1))
         (export "f" (func $f)) (export "g5" (global 7)) (export "g8" (global 10)))"#),
     ("start-local", r#"(module (func $a) (func $s (nop)) (start $s) (export "a" (func $a)) (export "s" (func $s)))"#),
+    ("imported-and-local-memory", r#"(module (import "e" "im" (memory $im 1)) (memory $l 2) (memory $l2 3)
+        (data (memory $l) (i32.const 0) "on-local") (data (memory $im) (i32.const 0) "on-imported") (data (memory $l2) (i32.const 4) "on-second-local")
+        (export "l" (memory $l)) (export "l2" (memory $l2)) (export "im" (memory $im))
+        (func (export "f") (result i32) (i32.load $l2 (i32.const 0))))"#),
+    ("imported-and-local-table-global", r#"(module (import "e" "it" (table $it 1 funcref)) (import "e" "ig" (global $ig i32)) (table $l 2 funcref) (global $gl i32 (i32.const 5))
+        (func $f) (elem (table $l) (i32.const 0) func $f) (elem (table $it) (global.get $ig) func $f $f)
+        (export "l" (table $l)) (export "it" (table $it)) (export "gl" (global $gl)) (export "ig" (global $ig)))"#),
+    ("empty-active-segments", r#"(module (table 4 funcref) (memory 1) (func $f)
+        (elem (i32.const 1) func) (elem (i32.const 2) func $f) (elem (i32.const 0) func)
+        (data (i32.const 0) "") (data (i32.const 3) "x") (export "f" (func $f)))"#),
     ("start-small-before-big", r#"(module (import "e" "i" (func $i)) (func $init (export "init") (call $i))
         (func $teardown (export "teardown") (call $i) (i32.const 1) (drop) (i32.const 2) (drop) (i32.const 3) (drop) (call $i))
         (func $mid (export "mid") (i32.const 1) (drop)) (start $init))"#),
